@@ -556,6 +556,7 @@ void runLongLife(rt::Rng rng, bool burst) {
 
 int main(int argc, char **argv) {
     rt::init(argc, argv);
+    rt::cpuBudgetPerCase(240);   // single-threaded, deterministic: a case that burns 240 s of CPU time does not terminate
     bool allScripted = rt::st().prop == "C10";
     unsigned scriptShare = (unsigned) rt::optInt("scriptshare", 150);   // C05 runs: per mille of histories whose callbacks act on the Subject
     int maxStepsFlat = (int) rt::optInt("steps", 150), maxStepsScripted = (int) rt::optInt("steps", 60);
